@@ -59,6 +59,17 @@ Definition rounds_ok (o : tr) : bool :=
 Definition c05_obs_ok (o : tr) : bool :=
   view_auth_ok (nth_tr o 0) && view_auth_ok (nth_tr o 1) && rounds_ok o.
 
+(** the set of (target, key id, signature) triples of a collection *)
+Definition coll_triples (c : tr) : list tr :=
+  flat_map (fun e => map (fun s => TL [nth_tr e 0; s]) (tls (nth_tr e 1))) (tls c).
+
+Definition tr_subset (a b : list tr) : bool := forallb (fun x => existsb (tr_eqb x) b) a.
+
+(** commit proof [a] has the round of [b] and at least its signatures (a restart reloads the
+    round's precommits, which may have grown by backfilling since the certificate was recorded) *)
+Definition cproof_covers (a b : tr) : bool :=
+  tr_eqb (nth_tr a 0) (nth_tr b 0) && tr_subset (coll_triples (nth_tr b 2)) (coll_triples (nth_tr a 2)).
+
 (** * C04 *)
 Definition hdr_h (e : tr) : N := tn (nth_tr e 0).
 Definition hdr_hash (e : tr) : list N := tb (nth_tr e 1).
@@ -83,7 +94,17 @@ Definition c04_obs_ok (init_h : N) (o : tr) : bool :=
    | first :: _ => (hdr_h first =? init_h) && (hdr_h (last hdrs first) =? v_height com) &&
                    (v_height vot =? v_height com + 1)
    end) &&
-  tr_eqb (nth_tr o 2) (TL [TN (v_height vot); TN (v_round vot); TN (v_height com); TN (v_round com)]).
+  tr_eqb (nth_tr o 2) (TL [TN (v_height vot); TN (v_round vot); TN (v_height com); TN (v_round com)]) &&
+  (* the previous-commit proofs the views expose are the certificates recorded with the chain *)
+  (match rev hdrs with
+   | top :: below =>
+       cproof_covers (nth_tr vot 10) (nth_tr top 7) &&
+       (match below with
+        | prev :: _ => cproof_covers (nth_tr com 10) (nth_tr prev 7)
+        | [] => true
+        end)
+   | [] => true
+   end).
 
 (** between consecutive observations: nothing committed changes, positions do not go back *)
 Definition c04_step_ok (a b : tr) : bool :=
@@ -161,12 +182,6 @@ Fixpoint collect_vals (acc : list (N * (list N * list N))) (l : list tr) : list 
   end.
 
 (** * C10: observations right after a restart *)
-(** the set of (target, key id, signature) triples of a collection *)
-Definition coll_triples (c : tr) : list tr :=
-  flat_map (fun e => map (fun s => TL [nth_tr e 0; s]) (tls (nth_tr e 1))) (tls c).
-
-Definition tr_subset (a b : list tr) : bool := forallb (fun x => existsb (tr_eqb x) b) a.
-
 (** every vote persisted for a round the node resumes in is present again in the view *)
 Definition persisted_reloaded (o : tr) : bool :=
   forallb (fun v =>
